@@ -58,7 +58,9 @@ class CHECK(Check):
                         fds.append({"k": kind, "size": size, "start": start})
                     for fd in fds:
                         for ln in range(0, start + size + 4):
-                            for content in (("#" * ln), ("ab\tc 0123456789xyz~"[:ln] if ln <= 18 else "z" * ln)):
+                            # third content: targets ending in line breaks / blanks / tabs (a short target may still carry its
+                            # terminator; padding must not touch it)
+                            for content in (("#" * ln), ("ab\tc 0123456789xyz~"[:ln] if ln <= 18 else "z" * ln), ("x\n \t\n\n\r \n" * 4)[:ln]):
                                 for v in small_values(fd):
                                     for mode in ("str", "bytes"):
                                         if mode == "bytes" and (fd["k"] in ("int", "float") and size not in (2, 4, 8)):
